@@ -6,9 +6,9 @@ Primary form — the declarative visibility rule, a transcription of the propert
 layers from the newest (`j`) to the oldest:
 * a layer that lists `q` itself (not as a whiteout) decides: `q` is that entry (a later entry of the
   same tar replaces an earlier one);
-* a layer that has any entry beneath `q` implies that `q` is a directory: the directory the lower
-  layers left there is kept (with its own metadata) unless this layer also deletes it; otherwise a
-  directory is created;
+* a layer that has a (non-whiteout) entry beneath `q` implies that `q` is a directory: the directory the
+  lower layers left there is kept (with its own metadata) unless this layer also deletes it; otherwise a
+  directory is created.  A whiteout entry beneath `q` only creates `q` when nothing else provides it;
 * a layer that *covers* `q` — a whiteout of `q` or of an ancestor, an opaque marker in an ancestor,
   or a non-directory entry at an ancestor — hides whatever lower layers say about `q`;
 * whiteouts and opaque markers never affect entries of their own layer.
@@ -32,8 +32,14 @@ def Entry.blocker (e : Entry) : Bool := e.wh || e.kind != .dir
 def explicitReal (i : Nat) (l : Layer) (q : Path) : Option Node :=
   (l.reverse.find? fun e => !e.wh && e.p == q).map (·.node i)
 
-/-- `q` is a proper ancestor of some entry of the layer (extraction creates missing parents, also for whiteouts) -/
+/-- `q` is a proper ancestor of some entry of the layer (the code creates parents for every entry) -/
 def impliedDir (l : Layer) (q : Path) : Bool := l.any fun e => isUnder q e.p
+
+/-- `q` is a proper ancestor of a non-whiteout entry: extraction makes `q` a directory, replacing a non-directory -/
+def realImplied (l : Layer) (q : Path) : Bool := l.any fun e => !e.wh && isUnder q e.p
+
+/-- `q` is a proper ancestor of a whiteout entry: extraction creates `q` only if it is missing -/
+def whImplied (l : Layer) (q : Path) : Bool := l.any fun e => e.wh && isUnder q e.p
 
 def covers (l : Layer) (q : Path) : Bool :=
   l.any fun e =>
@@ -48,11 +54,15 @@ def visible : List (Nat × Layer) → Path → Option Node
     match explicitReal i l q with
     | some n => some n
     | none =>
-      if impliedDir l q then
+      if realImplied l q then
         match (if covers l q then none else visible ls q) with
         | some n => if n.kind = .dir then some n else some (implDir i)
         | none => some (implDir i)
-      else if covers l q then none else visible ls q
+      else if covers l q then none
+      else
+        match visible ls q with
+        | some n => some n
+        | none => if whImplied l q then some (implDir i) else none
 
 /-- layers `j, j-1, …, 0` with their indices -/
 def newestFirst (layers : List Layer) : Nat → List (Nat × Layer)
@@ -85,11 +95,17 @@ def put (i : Nat) (t : FTree) (e : Entry) : FTree :=
               else (t.rmTree e.p).set e.p (e.node i)
   | none => t.set e.p (e.node i)
 
+/-- parents of a whiteout entry: created only where missing -/
+def putParentsWeak (i : Nat) (t : FTree) (p : Path) : FTree :=
+  (parents p).foldl (fun t d => match t.get d with | some _ => t | none => t.set d (implDir i)) t
+
 def ociApply (i : Nat) (t : FTree) (l : Layer) : FTree :=
+  -- the directory a whiteout entry sits in exists
+  let t := l.foldl (fun t e => if e.wh then putParentsWeak i t e.p else t) t
   -- whiteouts and opaque markers act on what the lower layers left
   let t := l.foldl (fun t e => if e.isOpq then t.rmChildren e.p.dropLast else if e.wh then t.rmTree e.p else t) t
-  -- then the layer's own entries in tar order; parents exist as directories (also those of whiteouts)
-  l.foldl (fun t e => if e.wh then putParents i t e.p else put i t e) t
+  -- then the layer's own entries in tar order; their parents become directories
+  l.foldl (fun t e => if e.wh then t else put i t e) t
 
 def ociFrom (layers : List Layer) : Nat → FTree
   | 0 => []
@@ -129,10 +145,13 @@ def noRecreateAt (later : List Layer) (l : Layer) (older : List Layer) : Bool :=
   l.all fun b => !b.blocker || !(later.any fun l' => dirMention l' b.p) ||
     older.all fun l0 => l0.all fun x => !isUnder b.p x.p
 
-/-- new class: a directory that `l` only implies (no entry of its own) while an older layer lists it
-as a directory — the view reports the made-up node (mode 0) instead of the older entry's metadata -/
+/-- new class: a directory that `l` only implies (no entry of its own) while an older layer lists it —
+the view reports the made-up node (mode 0) instead of the older entry's metadata.  For a directory implied by
+a real entry an older *directory* entry is the problem; for one implied only by whiteouts any older entry is
+(a whiteout listed beneath an older layer's file is ill-formed). -/
 def noImplicitOverExplicitAt (l : Layer) (older : List Layer) : Bool :=
-  l.all fun e => (parents e.p).all fun d => explicitRealAt l d || older.all fun l0 => !explicitDirAt l0 d
+  l.all fun e => (parents e.p).all fun d => explicitRealAt l d ||
+    older.all fun l0 => if realImplied l d then !explicitDirAt l0 d else !explicitRealAt l0 d
 
 /-- `later` = layers already passed (newer), the list = current and older layers, newest first -/
 def Hfrom : List Layer → List Layer → Bool
@@ -174,7 +193,9 @@ def failing : List Layer → List Layer → List String
     (if droppedEntry [] l then ["dropped-entry"] else []) ++
     (if whiteoutWithChildren l then ["wh-recreate"] else []) ++
     (if !noRecreateAt later l older then ["recreate"] else []) ++
-    (if !noImplicitOverExplicitAt l older then ["implicit-dir"] else []) ++
+    (if !noImplicitOverExplicitAt l older then
+       (if l.all fun e => (parents e.p).all fun d => explicitRealAt l d || older.all fun l0 => !explicitDirAt l0 d
+        then ["ill-wh-under-file"] else ["implicit-dir"]) else []) ++
     (if duplicateEntry [] l then ["ill-dup"] else []) ++
     (if fileWithChildren l then ["ill-file-children"] else []) ++
     (if l.any (fun e => e.p == []) then ["ill-root"] else []) ++
